@@ -30,7 +30,8 @@ pub struct Gen { pub rng: StdRng, pub profile: Profile, stash: Vec<(Ty, Expr)> }
 const STRS: &[&str] = &["", "a", "A", "abc", " a ", "1", "-7", "+5", "1.5", "true", "x y", "é", "ß", "aBc", "\u{3000}z ", "12abc", "170141183460469231731687303715884105728", "1e5", "inf", "NaN", ".5", "5.", "1_0", "0x1",
     "the quick brown fox jumps", "  Padded Value With Spaces\t ", "quick brown", "ÀÉÎõü straße ÿµ×÷ªº MiXeD case 0123456789", "0123456789012345678", "aaaaaaaaaaaaaaaaaaaaaaaaaaaaaaaaab", "aaaaaaaaaaaaaaaaab"];
 const DEC_STRS: &[&str] = &["1", "1.50", "-2.5", "0.1", "abc", "", "79228162514264337593543950335", "79228162514264337593543950336", "-0.000"];
-const DATE_STRS: &[&str] = &["1970-01-01T00:00:00Z", "2015-07-30T03:26:13Z", "2015-07-30T03:26:13.5+02:00", "1969-12-31T23:59:59.999999999Z", "2000-02-29T12:00:00-05:30", "2015-07-30", "2015-07-30T03:26:13", "2015-13-01T00:00:00Z", "2015-02-30T00:00:00Z", "abc", "1", ""];
+const DATE_STRS: &[&str] = &["2015-7-30 3:26:13 utc", " 2015-07-30t03:26:13.123456789123+0530 ", "+12015-07-30T03:26:13Z", "-0001-01-01T00:00:00Z", "2015-07-30T24:00:00Z", "2015-07-30T03:26:13+24:00",
+    "2015-07-30T03:26:13\u{2212}01:00", "2015-07-30T03:26:60Z", "2015-07-30T03:26:13.Z", "2015-07-30T03:26:13 +02 : 00", "2016-02-29T00:00:00z", "2100-02-29T00:00:00Z", "2015-07-30T03:26:13+02", "1970-01-01T00:00:00Z", "2015-07-30T03:26:13Z", "2015-07-30T03:26:13.5+02:00", "1969-12-31T23:59:59.999999999Z", "2000-02-29T12:00:00-05:30", "2015-07-30", "2015-07-30T03:26:13", "2015-13-01T00:00:00Z", "2015-02-30T00:00:00Z", "abc", "1", ""];
 
 impl Gen {
     pub fn new(seed: u64, profile: Profile) -> Self { Gen { rng: StdRng::seed_from_u64(seed), profile, stash: Vec::new() } }
@@ -193,7 +194,16 @@ impl Gen {
                 6 => Expr::gte(self.expr(ord, d), self.expr(ord, d)),
                 7 => Expr::lt(self.expr(ord, d), self.expr(ord, d)),
                 8 => Expr::lte(self.expr(ord, d), self.expr(ord, d)),
-                9 => match self.rng.gen_range(0..4) { 0 => Expr::contains(self.expr(Ty::Vec, d), self.expr(Ty::Any, d)), 1 => Expr::contains(self.expr(Ty::Str, d), self.expr(Ty::Str, d)),
+                9 => match self.rng.gen_range(0..6) { 0 => Expr::contains(self.expr(Ty::Vec, d), self.expr(Ty::Any, d)),
+                                                     // membership in a written-out list: the item is (often) one of the elements, and
+                                                     // an element may fail to evaluate (before or after the matching one)
+                                                     4 | 5 => { let t = self.pick(&[Ty::Int, Ty::Str, Ty::Bool, Ty::Dec, Ty::Float]); let n = self.rng.gen_range(2..7);
+                                                          let mut items: Vec<Expr> = (0..n).map(|_| self.expr(t, 0)).collect();
+                                                          let item = if self.p(0.7) { items[self.rng.gen_range(0..n)].clone() } else { self.expr(t, d.min(1)) };
+                                                          if self.p(0.5) { let k = self.rng.gen_range(0..n);
+                                                              items[k] = match self.rng.gen_range(0..4) { 0 => Expr::div(Expr::value(1), Expr::value(0)), 1 => Expr::reff("zz"),
+                                                                  2 => Expr::add(Expr::value(1), Expr::value("x".to_string())), _ => Expr::func("p4", Expr::value(4)) }; }
+                                                          Expr::contains(Expr::Vec(items), item) } 1 => Expr::contains(self.expr(Ty::Str, d), self.expr(Ty::Str, d)),
                                                      2 => Expr::contains(self.expr(Ty::Map, d), self.expr(Ty::Str, d)), _ => Expr::contains(self.expr(Ty::Int, d), self.expr(Ty::Int, d)) },
                 10 => if self.p(0.5) { Expr::some(self.expr(Ty::Any, d)) } else { Expr::none(self.expr(Ty::Any, d)) },
                 11 => { let k = self.rng.gen_range(0..3); let (l, r) = (self.expr(Ty::Bool, d), self.expr(Ty::Bool, d));
